@@ -243,3 +243,133 @@ pub fn judge(cfg: &Cfg, log: &[Rec]) -> Report {
     rep.sig = sig.0;
     rep
 }
+
+// ---------------------------------------------------------------------------------------
+// native multi-thread stress: with a seed the *multiset* of decisions over N requests is a
+// function of the seed alone, whichever thread's request draws first
+// ---------------------------------------------------------------------------------------
+
+#[derive(Clone)]
+struct Count(Arc<std::sync::atomic::AtomicU64>);
+impl tower::Service<Req> for Count {
+    type Response = crate::world::Resp;
+    type Error = PErr;
+    type Future = std::future::Ready<Result<crate::world::Resp, PErr>>;
+    fn poll_ready(&mut self, _: &mut std::task::Context<'_>) -> std::task::Poll<Result<(), PErr>> {
+        std::task::Poll::Ready(Ok(()))
+    }
+    fn call(&mut self, r: Req) -> Self::Future {
+        self.0.fetch_add(1, std::sync::atomic::Ordering::SeqCst);
+        std::future::ready(Ok(crate::world::Resp { serial: 0, req_id: r.id, payload: r.payload, src: 0 }))
+    }
+}
+
+/// (injected errors, inner calls, latency injections, sorted injected delays in ms)
+type Tally = (u64, u64, u64, Vec<u64>);
+
+fn stress_run(seed: u64, err_rate: f64, lat_rate: f64, bounds: (u64, u64), n: u64, tasks: u64, workers: usize) -> Option<Tally> {
+    use std::sync::atomic::{AtomicU64, Ordering};
+    use tower::ServiceExt;
+    let inner_calls = Arc::new(AtomicU64::new(0));
+    let delays = Arc::new(std::sync::Mutex::new(Vec::<u64>::new()));
+    let d2 = delays.clone();
+    let layer = ChaosLayer::builder()
+        .error_rate(err_rate)
+        .error_fn(|r: &Req| PErr { serial: r.id, req_id: r.id, class: INJECTED })
+        .latency_rate(lat_rate)
+        .min_latency(Duration::from_millis(bounds.0))
+        .max_latency(Duration::from_millis(bounds.1))
+        .seed(seed)
+        .on_latency_injected(move |d| d2.lock().unwrap_or_else(|e| e.into_inner()).push(d.as_millis() as u64))
+        .build();
+    let svc = layer.layer(Count(inner_calls.clone()));
+    let rt = if workers <= 1 {
+        tokio::runtime::Builder::new_current_thread().enable_time().build().ok()?
+    } else {
+        tokio::runtime::Builder::new_multi_thread().worker_threads(workers).enable_time().build().ok()?
+    };
+    let errs = rt.block_on(async {
+        tokio::time::timeout(Duration::from_secs(120), async {
+            let mut hs = vec![];
+            for t in 0..tasks {
+                let svc = svc.clone();
+                let (lo, hi) = (t * n / tasks, (t + 1) * n / tasks);
+                hs.push(tokio::spawn(async move {
+                    let mut e = 0u64;
+                    for i in lo..hi {
+                        let req = Req::new(i + 1, 0, vec![]);
+                        if let Err(p) = svc.clone().oneshot(req).await {
+                            if p.class == INJECTED {
+                                e += 1;
+                            }
+                        }
+                    }
+                    e
+                }));
+            }
+            let mut total = 0;
+            for h in hs {
+                total += h.await.unwrap_or(0);
+            }
+            total
+        })
+        .await
+    });
+    rt.shutdown_background();
+    let errs = errs.ok()?;
+    let mut ds = delays.lock().unwrap_or_else(|e| e.into_inner()).clone();
+    ds.sort();
+    Some((errs, inner_calls.load(Ordering::SeqCst), ds.len() as u64, ds))
+}
+
+pub fn stress(sseed: u64, n: u64) -> Report {
+    let mut rng = Prng::new(sseed);
+    let mut rep = Report::default();
+    let seed = rng.next();
+    let err_rate = *rng.pick(&[0.3, 0.5, 0.7, 0.0]);
+    let lat_rate = *rng.pick(&[0.0, 0.5, 1.0]);
+    let bounds = *rng.pick(&[(0u64, 0u64), (0, 2), (1, 1)]);
+    let n = if lat_rate > 0.0 && bounds.1 > 0 { n / 10 } else { n };
+    let workers = *rng.pick(&[4usize, 8, 16]);
+    let tasks = *rng.pick(&[8u64, 16, 64]);
+    let seq = stress_run(seed, err_rate, lat_rate, bounds, n, 1, 1);
+    let par = stress_run(seed, err_rate, lat_rate, bounds, n, tasks, workers);
+    let par2 = stress_run(seed, err_rate, lat_rate, bounds, n, tasks, workers);
+    match (&seq, &par, &par2) {
+        (Some(a), Some(b), Some(c)) => {
+            for (name, x) in [("first", b), ("second", c)] {
+                if a.0 != x.0 || a.1 != x.1 || a.2 != x.2 || a.3 != x.3 {
+                    rep.violate(
+                        "C19:stress:decisions-not-a-function-of-the-seed",
+                        format!(
+                            "seed {seed}, error rate {err_rate}, latency rate {lat_rate} in {bounds:?} ms, {n} requests: a sequential client saw {} injected errors / {} inner calls / {} latency injections; {tasks} tasks on {workers} worker threads ({name} run) saw {} / {} / {}{}",
+                            a.0,
+                            a.1,
+                            a.2,
+                            x.0,
+                            x.1,
+                            x.2,
+                            if a.3 != x.3 && a.2 == x.2 { " (different delays)" } else { "" }
+                        ),
+                    );
+                    break;
+                }
+            }
+            if a.0 + a.1 != n {
+                rep.violate("C19:stress:injected-error-and-inner-call", format!("{} injected errors + {} inner calls != {n} requests", a.0, a.1));
+            }
+            rep.count("requests_sequential", n);
+            rep.count("requests_concurrent", 2 * n);
+            rep.count("injected_errors", a.0);
+            rep.count("latency_injections", a.2);
+            rep.nontrivial = a.0 + a.2 > 0 && a.1 > 0;
+        }
+        _ => rep.inconclusive = Some("stress run did not finish within 120 s".into()),
+    }
+    rep.bucket(format!("err={err_rate} lat={lat_rate} workers={workers} tasks={tasks}"));
+    let mut s = Fnv::default();
+    s.add(seed);
+    rep.sig = s.0;
+    rep.case = json!({"engine": "stress", "seed": seed, "error_rate": err_rate, "latency_rate": lat_rate, "bounds_ms": [bounds.0, bounds.1], "requests": n, "tasks": tasks, "workers": workers, "tally_sequential": seq.as_ref().map(|t| (t.0, t.1, t.2))});
+    rep
+}
